@@ -1,8 +1,251 @@
-// commands for macro
+// commands for macro: drive the REAL src/macros.rs objects.
+//
+// A macro spec `block:3+back:1` = make_backsymbol_macro(&make_block_macro(&comp, P, 3), P, 1):
+// every layer receives the SAME params P given in the command.  Chains of
+// arbitrary depth are built by recursion; `MacroProg<P, L>` needs a sized
+// `P: GetInstr`, so each layer's base is wrapped in `Dyn(&dyn GetInstr)`.
 use crate::*;
+
+use std::collections::BTreeSet;
+
+use instrs::{Color, Params, Shift, State};
+use macros::{make_backsymbol_macro, make_block_macro, BacksymbolLogic, BlockLogic, MacroProg};
+
+pub struct Dyn<'a>(&'a dyn GetInstr);
+
+impl GetInstr for Dyn<'_> {
+    fn get_instr(&self, slot: &Slot) -> Option<Instr> {
+        self.0.get_instr(slot)
+    }
+    fn halt_slots(&self) -> BTreeSet<Slot> {
+        self.0.halt_slots()
+    }
+    fn erase_slots(&self) -> BTreeSet<Slot> {
+        self.0.erase_slots()
+    }
+    fn zr_shifts(&self) -> BTreeSet<(State, Shift)> {
+        self.0.zr_shifts()
+    }
+    fn params(&self) -> Params {
+        self.0.params()
+    }
+}
+
+/// What the commands need from the outermost object.
+pub trait MacroObj: GetInstr {
+    fn decode(&self, color: Color) -> Option<Vec<Color>>;
+    fn memo(&self) -> CompProg;
+}
+
+impl MacroObj for MacroProg<'_, Dyn<'_>, BlockLogic> {
+    fn decode(&self, color: Color) -> Option<Vec<Color>> {
+        self.verif_decode(color)
+    }
+    fn memo(&self) -> CompProg {
+        self.verif_memo()
+    }
+}
+
+impl MacroObj for MacroProg<'_, Dyn<'_>, BacksymbolLogic> {
+    fn decode(&self, color: Color) -> Option<Vec<Color>> {
+        self.verif_decode(color)
+    }
+    fn memo(&self) -> CompProg {
+        self.verif_memo()
+    }
+}
+
+#[derive(Clone, Copy, PartialEq)]
+enum Kind {
+    Block,
+    Back,
+}
+
+fn parse_spec(spec: &str) -> Vec<(Kind, usize)> {
+    spec.split('+')
+        .map(|e| {
+            let mut it = e.split(':');
+            let k = match it.next().unwrap() {
+                "block" => Kind::Block,
+                "back" => Kind::Back,
+                other => panic!("bad macro spec {other}"),
+            };
+            (k, it.next().unwrap().parse().unwrap())
+        })
+        .collect()
+}
+
+/// Builds the chain over `base` (base outward) and calls `f` on the outermost object.
+fn with_chain<R>(
+    base: &dyn GetInstr,
+    params: Params,
+    spec: &[(Kind, usize)],
+    f: &mut dyn FnMut(&dyn MacroObj) -> R,
+) -> R {
+    let d = Dyn(base);
+    let (kind, k) = spec[0];
+    match kind {
+        Kind::Block => {
+            let m = make_block_macro(&d, params, k);
+            if spec.len() == 1 { f(&m) } else { with_chain(&m, params, &spec[1..], f) }
+        },
+        Kind::Back => {
+            let m = make_backsymbol_macro(&d, params, k);
+            if spec.len() == 1 { f(&m) } else { with_chain(&m, params, &spec[1..], f) }
+        },
+    }
+}
+
+fn params_of(s: &str) -> Params {
+    let f: Vec<u64> = s.split(',').map(|x| x.parse().unwrap()).collect();
+    (f[0], f[1])
+}
+
+fn slots_of_field(s: &str) -> Vec<Slot> {
+    if s.is_empty() {
+        return vec![];
+    }
+    s.split(';')
+        .map(|q| {
+            let f: Vec<u64> = q.split(',').map(|x| x.parse().unwrap()).collect();
+            (f[0], f[1])
+        })
+        .collect()
+}
+
+type Answer = Result<Option<Instr>, ()>;
+
+fn query(m: &dyn MacroObj, slot: &Slot) -> Answer {
+    catch_unwind(AssertUnwindSafe(|| m.get_instr(slot))).map_err(|_| ())
+}
+
+fn field_of_answer(a: &Answer) -> String {
+    match a {
+        Err(()) => "P".to_string(),
+        Ok(None) => "-".to_string(),
+        Ok(Some(i)) => field_of_instr(i),
+    }
+}
+
+fn dump_state(
+    outer: (Kind, usize),
+    params: Params,
+    m: &dyn MacroObj,
+    qs: &[Slot],
+    ans: &[Answer],
+) -> String {
+    let mut cands: BTreeSet<Color> = (0..32).collect();
+    let insts: Vec<Instr> = ans.iter().filter_map(|a| a.clone().ok().flatten()).collect();
+    cands.extend(qs.iter().map(|s| s.1));
+    cands.extend(insts.iter().map(|i| i.0));
+    if outer.0 == Kind::Back {
+        let bk = params.1.checked_pow(outer.1 as u32).unwrap();
+        if bk != 0 {
+            cands.extend(qs.iter().map(|s| (s.0 / 2) % bk));
+            cands.extend(insts.iter().map(|i| (i.2 / 2) % bk));
+        }
+    }
+    let entries: Vec<String> = cands
+        .iter()
+        .filter_map(|c| m.decode(*c).map(|t| format!("{}={}", c, field_of_nlist(&t))))
+        .collect();
+    format!("c2t:{}|memo:{}", entries.join(";"), field_of_comp(&m.memo()))
+}
+
+fn cmd_macro(prog: &str, params: &str, spec: &str, queries: &str) -> String {
+    let comp = CompProg::from_str(prog);
+    let params = params_of(params);
+    let spec = parse_spec(spec);
+    let qs = slots_of_field(queries);
+    with_chain(&comp, params, &spec, &mut |m| {
+        let ans: Vec<Answer> = qs.iter().map(|q| query(m, q)).collect();
+        format!(
+            "{}|{}",
+            ans.iter().map(field_of_answer).collect::<Vec<_>>().join(";"),
+            dump_state(*spec.last().unwrap(), params, m, &qs, &ans)
+        )
+    })
+}
+
+fn cmd_macro2(prog: &str, params: &str, spec: &str, qa: &str, qb: &str) -> String {
+    let comp = CompProg::from_str(prog);
+    let params = params_of(params);
+    let spec = parse_spec(spec);
+    let qa = slots_of_field(qa);
+    let qb = slots_of_field(qb);
+    with_chain(&comp, params, &spec, &mut |a| {
+        with_chain(&comp, params, &spec, &mut |b| {
+            let mut ra = vec![];
+            let mut rb = vec![];
+            for i in 0..qa.len().max(qb.len()) {
+                if i < qa.len() {
+                    ra.push(field_of_answer(&query(a, &qa[i])));
+                }
+                if i < qb.len() {
+                    rb.push(field_of_answer(&query(b, &qb[i])));
+                }
+            }
+            format!("{}|{}", ra.join(";"), rb.join(";"))
+        })
+    })
+}
+
+fn cmd_macrorun(prog: &str, params: &str, spec: &str, n: &str) -> String {
+    let comp = CompProg::from_str(prog);
+    let params = params_of(params);
+    let spec = parse_spec(spec);
+    let n: u64 = n.parse().unwrap();
+    with_chain(&comp, params, &spec, &mut |m| {
+        // machine.rs:159-203 run_for_infrul without the prover
+        let mut tape = BasicTape::init(0);
+        let mut state: State = 0;
+        let mut cycles: u64 = 0;
+        let mut log: Vec<String> = vec![];
+        let mut reason = "limit".to_string();
+        for _ in 0..n {
+            let slot = (state, tape.scan);
+            let a = query(m, &slot);
+            log.push(format!("{}>{}", field_of_slot(&slot), field_of_answer(&a)));
+            let (color, shift, next_state) = match a {
+                Err(()) => {
+                    reason = "P".to_string();
+                    break;
+                },
+                Ok(None) => {
+                    reason = format!("undef:{}", field_of_slot(&slot));
+                    break;
+                },
+                Ok(Some(i)) => i,
+            };
+            let same = state == next_state;
+            if same && tape.at_edge(shift) {
+                reason = "spinout".to_string();
+                break;
+            }
+            tape.step(shift, color, same);
+            state = next_state;
+            cycles += 1;
+        }
+        format!("{}|{}|{}|{}", cycles, reason, fnv(&log.join(";")), field_of_tape(&tape))
+    })
+}
+
+fn cmd_macroparams(params: &str, spec: &str) -> String {
+    let comp = CompProg::new();
+    let params = params_of(params);
+    let spec = parse_spec(spec);
+    with_chain(&comp, params, &spec, &mut |m| {
+        let (s, c) = m.params();
+        format!("{s},{c}")
+    })
+}
 
 pub fn dispatch(fields: &[&str]) -> Option<String> {
     match fields {
+        ["macro", prog, params, spec, queries] => Some(cmd_macro(prog, params, spec, queries)),
+        ["macro2", prog, params, spec, qa, qb] => Some(cmd_macro2(prog, params, spec, qa, qb)),
+        ["macrorun", prog, params, spec, n] => Some(cmd_macrorun(prog, params, spec, n)),
+        ["macroparams", params, spec] => Some(cmd_macroparams(params, spec)),
         _ => None,
     }
 }
